@@ -37,6 +37,7 @@ CHECK = _C15(
     deciding=["oracle.C15.roundtrip"],
     profile=("stage", "table"),
     classes=[(c, max(50, q // 3), max(500, t // 5), p) for c, q, t, p in GEN_CLASSES],
+    use_byteflow=True,
     extra_assumptions=["graphs with AST statement payloads are outside the statement's "
                        "enumeration (regions, synthetic assignment/branching blocks, bytecode blocks)"],
 )
